@@ -51,18 +51,11 @@ func (c *Ctx) serviceRoles() *roleInfo {
 	for _, f := range svc {
 		inSvc[f] = true
 	}
-	// closures sent on sessionManager.operationFuncChan execute in the manager role
+	// operations sent on sessionManager.operationFuncChan (function literals, bound methods; directly or through a
+	// submit helper) execute in the manager role
 	for _, f := range svc {
-		for _, b := range f.Blocks {
-			for _, ins := range b.Instrs {
-				if s, ok := ins.(*ssa.Send); ok {
-					if mc, ok := stripChangeType(s.X).(*ssa.MakeClosure); ok {
-						if _, field, ok := fieldLoad(s.Chan); ok && field == "operationFuncChan" {
-							ri.sentClosures[mc.Fn.(*ssa.Function)] = "manager"
-						}
-					}
-				}
-			}
+		for _, g := range c.opsSentOn(f, "operationFuncChan") {
+			ri.sentClosures[g] = "manager"
 		}
 	}
 	roots := map[string][]*ssa.Function{}
@@ -86,6 +79,9 @@ func (c *Ctx) serviceRoles() *roleInfo {
 				if g, ok := ins.(*ssa.Go); ok {
 					if mc, ok := g.Call.Value.(*ssa.MakeClosure); ok {
 						add("go:"+shortFn(mc.Fn.(*ssa.Function)), mc.Fn.(*ssa.Function))
+					} else if sc := g.Call.StaticCallee(); sc != nil && inSvc[sc] && sc.Name() != "Start" && sc.Name() != "reader" && sc.Name() != "write" && sc.Name() != "run" {
+						// a named function / method started as a goroutine of its own (e.g. the timeout wait)
+						add("go:"+shortFn(sc), sc)
 					}
 				}
 			}
@@ -786,4 +782,89 @@ func (c *Ctx) freshPerEvaluation(v ssa.Value, use ssa.Instruction) (bool, string
 		return false, fmt.Sprintf("%s is not a fresh allocation", v.String())
 	}
 	return fresh(v, 0, true)
+}
+
+// funcOfValue: the function a function-typed value stands for: a function literal, a plain function, or the method
+// behind a bound-method value (x.m used as a value).
+func funcOfValue(v ssa.Value) *ssa.Function {
+	switch x := stripChangeType(v).(type) {
+	case *ssa.Function:
+		return unwrapBound(x)
+	case *ssa.MakeClosure:
+		if f, ok := x.Fn.(*ssa.Function); ok {
+			return unwrapBound(f)
+		}
+	}
+	return nil
+}
+
+func unwrapBound(f *ssa.Function) *ssa.Function {
+	if f == nil || f.Synthetic == "" || !strings.Contains(f.Synthetic, "bound method") {
+		return f
+	}
+	for _, b := range f.Blocks {
+		for _, ins := range b.Instrs {
+			if ci, ok := ins.(ssa.CallInstruction); ok {
+				if sc := ci.Common().StaticCallee(); sc != nil {
+					return sc
+				}
+			}
+		}
+	}
+	return f
+}
+
+// chanSendHelpers: functions of fns that send one of their parameters on the channel field `field` (submit helpers);
+// value: the parameter index.
+func chanSendHelpers(fns []*ssa.Function, field string) map[*ssa.Function]int {
+	out := map[*ssa.Function]int{}
+	for _, f := range fns {
+		for _, b := range f.Blocks {
+			for _, ins := range b.Instrs {
+				s, ok := ins.(*ssa.Send)
+				if !ok {
+					continue
+				}
+				if _, fl, ok := fieldLoad(s.Chan); !ok || fl != field {
+					continue
+				}
+				if prm, isP := stripChangeType(s.X).(*ssa.Parameter); isP {
+					for i, q := range f.Params {
+						if q == prm {
+							out[f] = i
+						}
+					}
+				}
+			}
+		}
+	}
+	return out
+}
+
+// opsSentOn: the functions whose execution fn hands to the receiver of channel field `field`: sent directly, or
+// passed to a helper that sends its parameter on that channel.
+func (c *Ctx) opsSentOn(fn *ssa.Function, field string) []*ssa.Function {
+	helpers := chanSendHelpers(c.RepoFuncs("service"), field)
+	var out []*ssa.Function
+	for _, b := range fn.Blocks {
+		for _, ins := range b.Instrs {
+			switch x := ins.(type) {
+			case *ssa.Send:
+				if _, f, ok := fieldLoad(x.Chan); ok && f == field {
+					if g := funcOfValue(x.X); g != nil {
+						out = append(out, g)
+					}
+				}
+			case *ssa.Call:
+				if sc := x.Call.StaticCallee(); sc != nil {
+					if i, isH := helpers[sc]; isH && i < len(x.Call.Args) {
+						if g := funcOfValue(x.Call.Args[i]); g != nil {
+							out = append(out, g)
+						}
+					}
+				}
+			}
+		}
+	}
+	return out
 }
